@@ -7,6 +7,7 @@ package main
 import (
 	"encoding/hex"
 	"fmt"
+	"time"
 
 	"verifharness/internal/vlib"
 )
@@ -98,7 +99,7 @@ func (f *fuzzRun) one(fm fuzzMsg) bool {
 			if _, ok := idle(op); !ok {
 				return false
 			}
-		} else if c.nReplies(op) == 0 {
+		} else if c.nReplies(op) == 0 && f.stillSilent(op) {
 			var gtxt []string
 			for _, g := range portbaseGoroutines(dumpGoroutines()) {
 				gtxt = append(gtxt, clip(g.Text, 1200))
@@ -132,6 +133,21 @@ func (f *fuzzRun) one(fm fuzzMsg) bool {
 			Detail: map[string]any{"reply": clip(string(r.Raw), 600), "message": clip(string(fm.Msg), 600)}}, fm)
 	}
 	e.jwrite("Q", c.no, nil, "")
+	return true
+}
+
+// stillSilent confirms "no reply and nothing running" with later observations.
+func (f *fuzzRun) stillSilent(op *opRec) bool {
+	for i := 0; i < 3; i++ {
+		time.Sleep(time.Duration(5*(i+1)) * time.Millisecond)
+		if _, ok := f.e.waitIdle(); !ok {
+			return false
+		}
+		if f.c.nReplies(op) != 0 {
+			f.e.b.Count("late_visible_replies", 1)
+			return false
+		}
+	}
 	return true
 }
 
